@@ -23,6 +23,9 @@ User callbacks that inspect ``raw`` are excluded by the statement.
 
 Round 4: whole-buffer re.* scans; the loop-block generators (and the helpers that fill their
 holes) do not special-case field kinds; a cursor assignment made of generated text is no verdict.
+
+Round 5: (g) util.SeekableFile answers raw[a:b] from the file at its own position, or from a
+remembered block only under a guard on the end of the request; the driver-hole rule of C03-a'.
 """
 import ast
 
